@@ -11,7 +11,7 @@ import rx.operators as rxops
 import rxsci as rs
 
 from . import funcs as F
-from .core import tap, InjectedFault, EmptyFault, canon
+from .core import tap, InjectedFault, EmptyFault, fault_class, canon
 
 
 def canon_exc(e):
@@ -290,12 +290,12 @@ def check_node(node, st, fl):
             for k in ('active', 'inactive'):
                 if node.get(k) is not None and node[k] <= 0:
                     raise Invalid('time-outs must be positive')
-            if node.get('dt') not in (None, False, True, 'seconds', 'hours', 'days'):
+            if node.get('dt') not in (None, False, True, 'seconds', 'hours', 'days', 'np_int', 'np_float', 'np_dt64'):
                 raise Invalid('time unit')
             inner_empty = bool(node.get('closing'))
         else:
             key = node['key']
-            if key not in F.KEYS or not _match(t, F.KEYS[key][1]):
+            if key not in F.KEYS or not (_match(t, F.KEYS[key][1]) or (op == 'split' and F.KEYS[key][1] == t + '_nan')):
                 raise Invalid('window key type')
             inner_empty = False
         out = check_pipeline(node['inner'], St(t, inner_empty, False), fl)
@@ -496,6 +496,8 @@ class Gen(object):
                 ist = St(t, node['closing'], False)
             else:
                 keys = names_for(F.KEYS, t)
+                if op == 'split' and r.random() < 0.15:
+                    keys = names_for(F.KEYS, t + '_nan') or keys      # values not equal to themselves: split only
                 if not keys:
                     return []
                 node['key'] = r.choice(keys)
@@ -599,7 +601,7 @@ def _faulty(ctx, site, fn, item_arg):
         r = args[item_arg]
         if type(r) is F.Rec and (r.k, r.n) in plan:
             ctx.fired[site] = ctx.fired.get(site, 0) + 1
-            raise (EmptyFault if ctx.extra.get('falsy_faults') and (r.k + r.n) % 2 == 0 else InjectedFault)(site, r.k, r.n)
+            raise fault_class(ctx.extra.get('falsy_faults'), r.k, r.n)(site, r.k, r.n)
         return fn(*args)
     return wrapped
 
@@ -624,7 +626,7 @@ def build_node(node, ctx, mode, path, i):
             def fstar(k, n, v, t, c):
                 if (k, n) in plan:
                     ctx.fired[site] = ctx.fired.get(site, 0) + 1
-                    raise (EmptyFault if ctx.extra.get('falsy_faults') and (k + n) % 2 == 0 else InjectedFault)(site, k, n)
+                    raise fault_class(ctx.extra.get('falsy_faults'), k, n)(site, k, n)
                 return star(k, n, v, t, c)
             return rs.ops.starmap(fstar)
         return rs.ops.starmap(F.STARS[node['fn']][0])
@@ -756,7 +758,8 @@ def time_mapper(node):
     dt = node.get('dt')
     if not dt:
         return F.time_of
-    return {'hours': F.time_of_hours, 'days': F.time_of_days}.get(dt, F.time_of_dt)
+    return {'hours': F.time_of_hours, 'days': F.time_of_days, 'np_int': F.time_of_np_int, 'np_float': F.time_of_np_float,
+            'np_dt64': F.time_of_np_dt64}.get(dt, F.time_of_dt)
 
 
 def timeout(node, k):
@@ -766,6 +769,11 @@ def timeout(node, k):
     dt = node.get('dt')
     if dt:
         from datetime import timedelta
+        if dt in ('np_int', 'np_float'):
+            return v
+        if dt == 'np_dt64':
+            import numpy
+            return numpy.timedelta64(int(v), 's')
         if dt == 'hours':
             return timedelta(hours=v)
         if dt == 'days':
